@@ -13,6 +13,8 @@ pub mod z80work;
 mod c01;
 mod c02;
 mod c03;
+pub mod c04;
+mod c05;
 mod c17;
 
 use report::{Ctx, Evidence, Tier};
@@ -51,6 +53,8 @@ fn checks() -> Vec<(&'static str, CheckFn)> {
         ("C01", c01::run as CheckFn),
         ("C02", c02::run as CheckFn),
         ("C03", c03::run as CheckFn),
+        ("C04", c04::run as CheckFn),
+        ("C05", c05::run as CheckFn),
         ("C17", c17::run as CheckFn),
         ("REFQUAL", refqual::run as CheckFn),
     ]
